@@ -584,30 +584,48 @@ func (tp *transport) execute(sc Script, rep *kit.Report) error {
 		s, err := client.Stream(ctx, addr)
 		och <- opened{s, err}
 	}()
+	// The open is supervised in observed ticks as well (a stalled machine is not a hang).
 	var stream freighter.ClientStream[Req, Res]
-	select {
-	case o := <-och:
-		if o.err != nil {
-			rep.Class("open-error")
-			rep.Discard("open-error")
-			cancel()
+	otk := time.NewTicker(tickEvery)
+	for waited, opened := 0, false; !opened; {
+		select {
+		case o := <-och:
+			if o.err != nil {
+				otk.Stop()
+				rep.Class("open-error")
+				r.discardCase("open-error")
+				rep.Discard("open-error")
+				r.awaitHandlerIfStarted()
+				return nil
+			}
+			stream, opened = o.s, true
+		case <-otk.C:
+			if waited++; waited <= int(wd/tickEvery) {
+				continue
+			}
+			otk.Stop()
+			timeoutsSeen.Add(1)
+			rep.Class("timeout")
+			r.discardCase("timeout-open")
+			rep.Discard("timeout-open")
+			for g := 0; g < int(grace/tickEvery); g++ {
+				select {
+				case o := <-och:
+					if o.err == nil {
+						go r.unwind(o.s)
+					}
+					g = int(grace / tickEvery)
+				case <-time.After(tickEvery):
+					if g == int(grace/tickEvery)-1 {
+						rep.Class("leaked-goroutine")
+					}
+				}
+			}
 			r.awaitHandlerIfStarted()
 			return nil
 		}
-		stream = o.s
-	case <-time.After(wd):
-		timeoutsSeen.Add(1)
-		rep.Class("timeout")
-		rep.Discard("timeout-open")
-		cancel()
-		select {
-		case <-och:
-		case <-time.After(grace):
-			rep.Class("leaked-goroutine")
-		}
-		r.awaitHandlerIfStarted()
-		return nil
 	}
+	otk.Stop()
 
 	go r.client(stream)
 
